@@ -310,7 +310,9 @@ func (x *Exec) static(site ssa.Instruction, fn *ssa.Function, bindings []Value, 
 		// concurrent mode: prefer the callee's second contract (typically "writes nothing when the
 		// shared state is already built"); its requires become obligations here
 		pk, key := fnKey(fn)
-		if ac := eng.cs.Also[pk+"::"+key]; ac != nil {
+		if ac := eng.cs.Also[pk+"::"+key]; ac != nil && ac.Opts["interference"] != "yes" {
+			// (a contract stated under interference is a statement about the function alone, verified
+			// as a unit of its own; callers keep the primary contract)
 			return x.modularCall(site, fn, ac, args, st)
 		}
 	}
@@ -649,8 +651,12 @@ func (x *Exec) havocCall(site ssa.Instruction, sig *types.Signature, name string
 	st.gen = g
 	// the frame of the function under verification must admit what the callee may write
 	if x.frame != nil && !x.frame.any {
+		kind := "frame"
+		if fn == nil || !u.eng.inRepo(fn) {
+			kind = "frame-unmodelled" // a library function without contract: a failure here decides nothing (see check.go)
+		}
 		if all {
-			x.obl("frame[call "+name+"]", "frame", "call without contract may write anything", st, TFalse)
+			x.obl("frame[call "+name+"]", kind, "call without contract may write anything", st, TFalse)
 		} else {
 			for _, h := range keys(heaps) {
 				if h == "*iface*" {
@@ -658,7 +664,7 @@ func (x *Exec) havocCall(site ssa.Instruction, sig *types.Signature, name string
 				}
 				// conservative: the callee may write any pre-existing location of these heaps
 				p := u.W.Fresh("anyp", SPtr)
-				x.obl("frame[call "+name+" "+h+"]", "frame", "callee without contract may write heap "+h, st, Or(Ge(PBase(p), x.alloc0), x.frame.Writable(h, p)))
+				x.obl("frame[call "+name+" "+h+"]", kind, "callee without contract may write heap "+h, st, Or(Ge(PBase(p), x.alloc0), x.frame.Writable(h, p)))
 			}
 		}
 	}
@@ -1027,12 +1033,106 @@ func lockOp(mode string, acquire bool) intrinsic {
 		if acquire {
 			x.obl("lock[not-held-on-acquire]", "lock", "mutex is not already held by this call (self-deadlock)", st, Eq(held, IntLit(0)))
 			st.cells[key] = want
+			if l, ok := args[0].(*Loc); ok && x.u.interference {
+				x.interfere(l, st)
+			}
+			if _, released := st.cells["lock:released"]; released && x.fc != nil && x.fc.Opts["interference"] == "frame" {
+				// a second critical section: whatever this call may write, other goroutines may have
+				// written in between - within the same frame, re-establishing the same invariant
+				x.interfereFrame(st)
+			}
 		} else {
 			x.obl("lock[held-on-release]", "lock", "mutex released in the mode it was acquired", st, Eq(held, want))
 			st.cells[key] = IntLit(0)
+			st.cells["lock:released"] = IntLit(1)
 		}
 		x.u.lockKeys[key] = true
 		return nil
+	}
+}
+
+// interfere: the mutex at l was just acquired in a unit verified under interference. Between the
+// last release (or the call's entry) and now other goroutines ran: the add-only maps this mutex
+// guards are replaced by an arbitrary extension of what they were (every old entry kept with
+// its value, any number of new entries).
+func (x *Exec) interfere(l *Loc, st *State) {
+	if l.Kind != "heap" || len(l.Path) != 1 || l.Path[0].Index != nil {
+		return
+	}
+	named, ok := l.Root.(*types.Named)
+	if !ok || named.Obj().Pkg() == nil {
+		return
+	}
+	g := x.u.eng.cs.Guards[named.Obj().Pkg().Path()+"."+named.Obj().Name()]
+	stt := structOf(l.Root)
+	if g == nil || stt == nil || stt.Field(l.Path[0].Field).Name() != g.Mutex {
+		return
+	}
+	w := x.u.W
+	for i := 0; i < stt.NumFields(); i++ {
+		f := stt.Field(i)
+		if !g.AddOnly[f.Name()] {
+			continue
+		}
+		mt, ok := f.Type().Underlying().(*types.Map)
+		if !ok {
+			continue
+		}
+		fl := &Loc{Kind: "heap", Ptr: l.Ptr, Root: l.Root, Path: []PathElem{{Field: i, T: l.Root}}}
+		m := x.term(x.load(fl, st))
+		x.noteGuardedContents(fl, m)
+		md, mv, mc, ks, vs := mapHeaps(w, mt)
+		hd := st.Heap(md, ArraySort(SPtr, ArraySort(ks, SBool)))
+		hv := st.Heap(mv, ArraySort(SPtr, ArraySort(ks, vs)))
+		hc := st.Heap(mc, ArraySort(SPtr, SInt))
+		nd := w.Fresh("dom@others", ArraySort(ks, SBool))
+		nv := w.Fresh("val@others", ArraySort(ks, vs))
+		nc := w.Fresh("cnt@others", SInt)
+		od, ov := Select(hd, m), Select(hv, m)
+		x.assume(Term{fmt.Sprintf("(forall ((k!q %s)) (! (=> (select %s k!q) (and (select %s k!q) (= (select %s k!q) (select %s k!q)))) :pattern ((select %s k!q)) :pattern ((select %s k!q))))", ks, od.S, nd.S, nv.S, ov.S, nd.S, nv.S), SBool})
+		x.assume(Ge(nc, Select(hc, m)))
+		st.SetHeap(md, Store(hd, m, nd))
+		st.SetHeap(mv, Store(hv, m, nv))
+		st.SetHeap(mc, Store(hc, m, nc))
+	}
+}
+
+// interfereFrame: between two critical sections of one call other goroutines ran. They are
+// calls of the same interface: each writes within the frame this unit's modifies clause names and
+// re-establishes the unit's precondition (the representation invariant). The state is havocked
+// accordingly; what the call learnt in its first critical section is gone unless the invariant
+// or the frame preserves it.
+func (x *Exec) interfereFrame(st *State) {
+	u := x.u
+	pre := st.Clone()
+	allocBefore := st.alloc
+	st.alloc = u.W.Fresh("alloc", SInt)
+	x.assume(Ge(st.alloc, allocBefore))
+	st.heaps = map[string]Term{}
+	aa := st.alloc
+	g := &Gen{kind: "havoc", parent: pre, guard: x.curBlockReach, tag: "others", allocBefore: allocBefore, allocAfter: &aa}
+	if fr := x.frame; fr != nil && !fr.any {
+		g.writable = func(heap string, p Term) Term { return fr.Writable(heap, p) }
+		g.only = map[string]bool{}
+		for _, it := range fr.items {
+			if it.heap == "*" {
+				g.only = nil
+				break
+			}
+			g.only[it.heap] = true
+		}
+	}
+	st.gen = g
+	for _, rq := range x.fc.Requires {
+		env := x.specEnv(st, nil)
+		env.locals = false
+		env.noAlts = true
+		t, err := env.EvalBool(rq.Expr)
+		if err != nil {
+			u.Errorf("%s: requires %q after interference: %v", x.fn, rq.Text, err)
+			continue
+		}
+		x.assume(t)
 	}
 }
 
@@ -1264,6 +1364,14 @@ func unmarshalLike(argIdx int) intrinsic {
 			for i := 0; i < res.Len(); i++ {
 				r := w.Fresh("r."+fn.Name(), w.SortOf(res.At(i).Type()))
 				vals = append(vals, r)
+				// Unmarshal(data, &v): whether decoding succeeds is a function of the bytes handed in
+				// (spec function decodes(data), uninterpreted) - the link between "the file holds a
+				// decodable document" and "the load succeeds"
+				if argIdx == 1 && i == res.Len()-1 && res.At(i).Type().String() == "error" && len(args) > 0 {
+					if dt, ok := args[0].(Term); ok {
+						x.assume(Eq(Eq(r, Term{"iface.nil", SIface}), w.UF("spec.decodes", SBool, dt)))
+					}
+				}
 			}
 			return resultValue(vals)
 		}
